@@ -29,6 +29,7 @@ class FuncInfo:
   parent: "FuncInfo | None" = None
   cached_factory: bool = False  # decorated with @cache_kernel
   nested: dict = field(default_factory=dict)  # name -> FuncInfo (direct nested defs)
+  overloads: list = field(default_factory=list)  # further @wp.func definitions of the same name
 
   @property
   def source_hash(self) -> str:
@@ -88,7 +89,12 @@ def load_module(name: str) -> ModuleInfo:
         q = prefix + n.name
         kind, cached = _dec_kind(n)
         fi = FuncInfo(key=f"{name}:{q}", module=name, qualname=q, node=n, kind=kind, parent=parent, cached_factory=cached)
-        funcs[q] = fi
+        if q in funcs and kind == "func" and funcs[q].kind == "func":
+          # Warp overloads @wp.func definitions of the same name by argument types
+          funcs[q].overloads.append(fi)
+          fi.key = f"{name}:{q}#{len(funcs[q].overloads)}"
+        else:
+          funcs[q] = fi
         if parent is not None:
           parent.nested[n.name] = fi
         visit_nested(n.body, q + ".", fi)
